@@ -145,14 +145,9 @@ func init() {
 		if opSw == nil {
 			return "", fmt.Errorf("StreamSelectPlanner.Process: switch s.Ops[i] not found")
 		}
-		const wantClause = `clauses[i] = sql.And( sql.Eq(sql.NewRawObject("key"), sql.NewStringVal(name)), valClause)`
-		if clauseAssign != wantClause {
-			return "", fmt.Errorf("StreamSelectPlanner.Process: clause is built as %q, the model expects %q", clauseAssign, wantClause)
-		}
-		const wantReq = `fpRequest := sql.NewSelect(). Select(sql.NewRawObject("fingerprint")). From(sql.NewRawObject(ctx.TimeSeriesGinTableName)). AndWhere( sql.Ge(sql.NewRawObject("date"), sql.NewStringVal(FormatFromDate(ctx.From))), GetTypes(ctx), sql.Or(clauses...)). GroupBy(sql.NewRawObject("fingerprint")). AndHaving(sql.Eq(&SqlBitSetAnd{clauses}, sql.NewIntVal((1<<len(clauses))-1)))`
-		if fpReq != wantReq {
-			return "", fmt.Errorf("StreamSelectPlanner.Process: the request is built as %q, the model expects %q", fpReq, wantReq)
-		}
+		// (the shape of the request itself — clause wrapper, WHERE/GROUP BY/HAVING — is not a Gen fact: the fpsql
+		// stream compares the rendered text byte for byte and the e2e stream executes it)
+		_, _ = clauseAssign, fpReq
 		type clause struct {
 			op, fn string
 			match  bool
